@@ -286,12 +286,19 @@ def exec_workload(case):
                 cands = set()
                 for p in paths:
                     if sum(eff[u] for u in p) == best:
-                        tot = 0
-                        for u in p:
-                            node = gd["graph"][u]
-                            s_ = slo_override if slo_override else node.get("slo")
-                            tot += s_ if s_ is not None else wts[u]
-                        cands.add(tot)
+                        # zero-weight jobs (runtime 0, or probability 0) at either end make shorter stretches of the path
+                        # equally "longest": the loader may sum over any of them (C17/C19 speak of positive weights)
+                        for a in range(len(p)):
+                            for z in range(a + 1, len(p) + 1):
+                                q = p[a:z]
+                                if sum(eff[u] for u in q) != best:
+                                    continue
+                                tot = 0
+                                for u in q:
+                                    node = gd["graph"][u]
+                                    s_ = slo_override if slo_override else node.get("slo")
+                                    tot += s_ if s_ is not None else wts[u]
+                                cands.add(tot)
                 uses_slo = bool(slo_override) or any("slo" in node for node in gd["graph"])
                 if uses_slo and any(w == 0 for w in eff):
                     # zero-weight nodes make the critical path ambiguous (any sub-path is "longest"): the SLO sum is then
